@@ -365,6 +365,18 @@ def shard_fn(shard, nshards, seed, tier, exe, npairs, ncopies):
         cmds = ["B 0 " + " ".join(a), "NAV 0 5 " + " ".join(p2), "SS 5 0 1", "S64 0", "DCOPY 0 1 0", "S64 1", "PUT 0", "S64 1", "PUT 1"]
         cases.append((cid, cmds))
         udmeta[cid] = ("serfn",)
+    # very deep trees (thousands of levels): equality, deep copy and the copy's independence are recursive in the implementation and must not tire
+    for j in range(2 if shard < 8 else 0):
+        K = rng.choice([300, 1000, 1023, 1024, 1025, 2047, 2048, 2049, 3000, 4096, 4097, 5000])
+        leaf = rng.choice(["i7", "s" + b"leaf".hex(), "t"])
+        toks = [leaf]
+        for lvl in range(K):
+            toks = (["["] + toks + ["]"]) if (lvl + j) % 3 else (["{", "k" + b"c".hex()] + toks + ["}"])
+        cid = "%d.deep%d" % (shard, j)
+        cmds = ["B 0 " + " ".join(toks), "B 1 " + " ".join(toks), "EQ 0 1", "EQ 1 0", "DCOPY 0 2 0", "EQ 0 2", "EQ 2 0", "S 0 0", "S 2 0", "NAV 2 5 " + " ".join("i0" if (lvl + j) % 3 else "k" + b"c".hex() for lvl in reversed(range(K))),
+                "SET 5 i64 99" if leaf == "i7" else "SSTR 5 x" + b"other".hex() if leaf[0] == "s" else "SET 5 bool 0", "EQ 0 2", "EQ 0 1", "PUT 0", "S 2 0", "PUT 1", "PUT 2"]
+        cases.append((cid, cmds))
+        udmeta[cid] = ("deep", K)
     # a shallow-copy callback that gives up on its k-th node (returns -1 without touching *dst): the copy fails, what was built so far is released exactly once,
     # the source is untouched
     for j in range(max(8, ncopies // nshards // 40)):
@@ -385,6 +397,30 @@ def shard_fn(shard, nshards, seed, tier, exe, npairs, ncopies):
         sh.violation("C09/%s/%s/%s" % (kind_, frame, (meta[cr.cid][0] if cr.cid in meta else "copy-family")), "memory error (%s) at command #%d %s" % (kind_, i, cmdmap[cr.cid][i][:80]),
                      {"driver": "jcdrv", "variant": "asan", "script": cmdmap[cr.cid], "stderr": cr.stderr[-2500:]})
     for cid, lines in results.items():
+        if cid in udmeta and isinstance(udmeta[cid], tuple) and udmeta[cid][0] == "deep":
+            cmds = cmdmap[cid]
+            K = udmeta[cid][1]
+            rep = {"driver": "jcdrv", "variant": "asan", "script": [c[:300] for c in cmds], "levels": K}
+            sh.evaluations += 8
+            v = [l.split()[1] for l in lines]
+            key = None
+            if v[2] != "1" or v[3] != "1":
+                key, what = "deep/equal-trees-compare-unequal", "two identical trees nested %d levels compare as %s/%s" % (K, v[2], v[3])
+            elif v[4] != "0":
+                key, what = "deep/copy-failed", "deep copy of a tree nested %d levels returned %s" % (K, v[4])
+            elif v[5] != "1" or v[6] != "1":
+                key, what = "deep/copy-not-equal", "the copy of a tree nested %d levels is not equal to its source" % K
+            elif lines[7] != lines[8]:
+                key, what = "deep/copy-serializes-differently", "source and copy of a tree nested %d levels serialize differently" % K
+            elif v[11] != "0" or v[12] != "1":
+                key, what = "deep/innermost-change", "after changing the innermost leaf of the copy: equal(source, copy) = %s (want 0), equal(source, twin) = %s (want 1)" % (v[11], v[12])
+            elif lines[-1].split()[1] != "live=0":
+                key, what = "leak", "blocks left: " + lines[-1]
+            if key:
+                sh.violation("C09/" + key, what, rep)
+            sh.count("trees_nested_300_to_5000_levels")
+            sh.nontrivial("deep/%d/%s" % (K, cmds[0][:40]))
+            continue
         if cid in udmeta and udmeta[cid] == ("serfn",):
             cmds = cmdmap[cid]
             rep = {"driver": "jcdrv", "variant": "asan", "script": cmds}
